@@ -1,6 +1,6 @@
 """C19 ARM64 JIT output is equivalent to the interpreter."""
 import astq
-from rules import a64hsem, a64patch, a64sem, genreset, jit, jitcross, rtpreserve
+from rules import a64hsem, a64patch, a64sem, genreset, jit, jitcross, rtpreserve, a64dsread
 
 LEVEL = 'other'
 TECHNIQUE = ('cross-target parse (clang --target=aarch64) of the back-end that this host never compiles + sibling agreement with the interpreter on resolved-AST feature vectors, known-bits and A64 logical-immediate decoding of emitted constants, max-path code-size bound against the assembled template, known-bits abstract execution of the immediate helpers over 529 immediate classes'
@@ -18,8 +18,8 @@ EXPLANATION = ('PORT-TYPECHECK(K2), TAB-OPC, LW-SIB, SPLIT-SIB, RCP-NOOP, CBR-BI
          ' A64-MEM-HSEM, LW-VALUE.'
          ' A64-CBR-HSEM.')
 
-CLAIM += (' Hand-written runtime (jit_compiler_a64_static.S, assembled for the target and read back from the disassembly): every routine called while a program or the dataset loop runs leaves every register that is read afterwards unchanged - the callee is followed instruction by instruction with its frame slots, the registers generated SuperscalarHash code can write are added, and the result is compared with backward liveness in which generated code reads IntRegMap and the IMUL_RCP literal registers (A64-RT-PRESERVE); literal register i of h_IMUL_RCP is the register the prologue loads from literal slot i and no piece of the loop changes it (A64-RCPLIT); prologue constants are never reloaded from another entry (A64-RT-CONST); the light-mode dataset offset patched into the template is the configured one (A64-DSOFF).')
-EXPLANATION += ' A64-RT-PRESERVE (18 call sites), A64-RCPLIT (12 literal registers), A64-RT-CONST, A64-DSOFF.'
+CLAIM += (' Hand-written runtime (jit_compiler_a64_static.S, assembled for the target and read back from the disassembly): every routine called while a program or the dataset loop runs leaves every register that is read afterwards unchanged - the callee is followed instruction by instruction with its frame slots, the registers generated SuperscalarHash code can write are added, and the result is compared with backward liveness in which generated code reads IntRegMap and the IMUL_RCP literal registers (A64-RT-PRESERVE); literal register i of h_IMUL_RCP is the register the prologue loads from literal slot i and no piece of the loop changes it (A64-RCPLIT); prologue constants are never reloaded from another entry (A64-RT-CONST); the light-mode dataset offset patched into the template is the configured one (A64-DSOFF); the full-memory dataset read (generated XOR word + v1 / v2 piece + static text with the masks the generator writes) executed on terms performs specification 4.6.2 steps 5-8 (A64-DSREAD-HSEM).')
+EXPLANATION += ' A64-RT-PRESERVE (18 call sites), A64-RCPLIT (12 literal registers), A64-RT-CONST, A64-DSOFF, A64-DSREAD-HSEM (v1 / v2 dataset read of full-memory mode on terms).'
 
 TECHNIQUE += '; def-use, backward liveness and a frame-slot value-preservation analysis over the disassembly of the hand-written runtime assembled for the target'
 
@@ -52,3 +52,4 @@ def run(ctx, R):
     rtpreserve.rule_a64(ctx, R)
     rtpreserve.rule_a64_rcplit(ctx, R)
     rtpreserve.rule_const(ctx, R, 'a64')
+    a64dsread.rule_dsread(ctx, R)
